@@ -10,7 +10,7 @@ Init == e \in Eps /\ p \in Pas /\ l \in Laws /\ f \in Fixes /\ m \in Modes /\ cx
         /\ st \in {s \in Starts : s = "perp" => (e <= 20 /\ f = "none" /\ m = "bilinear")}
         \* frames whose outer isophotes cross the border are fitted with every integration mode but no fix flags; the large frame
         \* (model images of large ellipses) with bilinear sampling and all parameters free
-        /\ (fr \in {"nearleft", "nearbottom"} => (f = "none" /\ m \in {"bilinear", "mean", "median"} /\ e <= 50))
+        /\ (fr \in {"nearleft", "nearbottom", "largeleft", "largebottom"} => (f = "none" /\ m \in {"bilinear", "mean", "median"} /\ e <= 50 /\ st = "near"))
         /\ (fr = "large" => (f = "none" /\ m = "bilinear" /\ e <= 50 /\ st = "near"))
         /\ (m \in {"mean", "median"} => f = "none")
 Observe == ~done /\ done' = TRUE /\ UNCHANGED <<e, p, l, f, m, cx, fr, st>>
